@@ -1,10 +1,10 @@
 (* Glue for the `group` driver (C10): text ops -> steps of Model/Admission.v.
    A Go-level operation that spans several critical sections of Group.mu is
    replayed as the same sequence of atomic model steps:
-     join     = SAdd (pending description change) ; SAddClient
+     join     = TAdd (create / reload / fail) ; SAddClient on the object returned
      shutdown = SSetLocked true msg ; Kick of the members (kickall snapshot)
-   "desc" only rewrites the file: the model sees the new description at the
-   next Add, as the code does. *)
+   "desc" / "corrupt" only replace the file: the model sees it at the next
+   Add, as the code does. *)
 open Util
 open Registry
 
@@ -56,47 +56,73 @@ let auth_of s =
                        | _ -> failwith "group: bad auth table") (String.split_on_char ',' s) in
   fun c -> List.assoc_opt (int_of_z c) tbl
 
+let rec int_of_nat = function Datatypes.O -> 0 | Datatypes.S n -> 1 + int_of_nat n
+
+(* The whole history of one group NAME runs through the table layer of the
+   model (tstep): desc/corrupt replace the file, add/join go through TAdd,
+   every other operation is a critical section of the object the client holds
+   (the object it entered; for lock/shutdown/DelClient-by-a-stranger the
+   registered object). *)
 let comp_group : Registry.comp = fun _params ->
   let open Admission in
-  let st : group option ref = ref None in
-  let pending : desc option ref = ref None in
-  let do_add () =
-    match !st, !pending with
-    | None, Some d -> st := Some (created d); pending := None; []
-    | None, None -> failwith "group: add before any description"
-    | Some g, r ->
-       let (g', o) = step g (SAdd r) in
-       st := Some g'; pending := None; o.o_events in
-  let cur () = match !st with Some g -> g | None -> failwith "group: no group" in
+  let tb : table ref = ref tinit in
+  let where : (string, Datatypes.nat) Hashtbl.t = Hashtbl.create 16 in  (* uid -> object entered *)
+  let cur_state () =
+    match !tb.t_cur with
+    | None -> "absent"
+    | Some k -> (match List.nth_opt !tb.t_objs (int_of_nat k) with
+                 | Some g -> state_string g
+                 | None -> "absent") in
+  let tdo s = let (t', r) = tstep !tb s in tb := t'; r in
+  let on_cur s =
+    match !tb.t_cur with
+    | None -> failwith "group: no registered group"
+    | Some k -> (match tdo (TOn (k, s)) with TOut o -> o | _ -> failwith "group: bad step") in
   fun toks ->
     match toks with
     | ["desc"; mx; al; ak; nb; ex; auth] ->
-       pending := Some { d_max_clients = z mx; d_autolock = b al; d_autokick = b ak;
-                         d_not_before = opt_z nb; d_expires = opt_z ex; d_auth = auth_of auth };
+       ignore (tdo (TWrite (Some { d_max_clients = z mx; d_autolock = b al; d_autokick = b ak;
+                                   d_not_before = opt_z nb; d_expires = opt_z ex;
+                                   d_auth = auth_of auth })));
        "-"
+    | ["corrupt"; _mode] -> ignore (tdo (TWrite None)); "-"
     | ["add"] ->
-       let ev = do_add () in
-       events_string ev ^ " | " ^ state_string (cur ())
+       (match tdo TAdd with
+        | TAddOk (_, ev) -> "ok " ^ events_string ev ^ " | " ^ cur_state ()
+        | _ -> "adderr - | " ^ cur_state ())
     | ["join"; uid; id; sys; sysop; code] ->
-       let ev1 = do_add () in
-       let j = { j_uid = z uid; j_id = str_of_hex id; j_sys = b sys; j_sysop = b sysop;
-                 j_cred = z code } in
-       let (g', o) = step (cur ()) (SAddClient (z "0", j)) in
-       st := Some g';
-       result_string o.o_res ^ " " ^ events_string (ev1 @ o.o_events) ^ " | " ^ state_string g'
+       (match tdo TAdd with
+        | TAddOk (k, ev1) ->
+           let j = { j_uid = z uid; j_id = str_of_hex id; j_sys = b sys; j_sysop = b sysop;
+                     j_cred = z code } in
+           (match tdo (TOn (k, SAddClient (z "0", j))) with
+            | TOut o ->
+               if o.o_res = RAccepted then Hashtbl.replace where uid k;
+               result_string o.o_res ^ " " ^ events_string (ev1 @ o.o_events) ^ " | " ^ cur_state ()
+            | _ -> failwith "group: bad join step")
+        | _ -> "adderr - | " ^ cur_state ())
     | ["del"; uid; id] ->
-       let (g', o) = step (cur ()) (SDelClient (str_of_hex id, z uid)) in
-       st := Some g';
-       events_string o.o_events ^ " | " ^ state_string g'
+       let k = match Hashtbl.find_opt where uid with
+         | Some k -> k
+         | None -> (match !tb.t_cur with Some k -> k | None -> failwith "group: del without group") in
+       (match tdo (TOn (k, SDelClient (str_of_hex id, z uid))) with
+        | TOut o ->
+           if o.o_res = RDone then Hashtbl.remove where uid;
+           events_string o.o_events ^ " | " ^ cur_state ()
+        | _ -> failwith "group: bad del step")
     | ["lock"; bb; msg] ->
-       let (g', o) = step (cur ()) (SSetLocked (b bb, str_of_hex msg)) in
-       st := Some g';
-       events_string o.o_events ^ " | " ^ state_string g'
+       let o = on_cur (SSetLocked (b bb, str_of_hex msg)) in
+       events_string o.o_events ^ " | " ^ cur_state ()
     | ["shutdown"; msg] ->
-       let (g', o) = step (cur ()) (SSetLocked (true, str_of_hex msg)) in
-       st := Some g';
-       let kicks = List.map (fun (_, c) -> EKick c.c_uid) g'.g_clients in
-       events_string (o.o_events @ kicks) ^ " | " ^ state_string g'
+       let o = on_cur (SSetLocked (true, str_of_hex msg)) in
+       let g = match !tb.t_cur with
+         | Some k -> List.nth !tb.t_objs (int_of_nat k) | None -> failwith "group: no group" in
+       let kicks = List.map (fun (_, c) -> EKick c.c_uid) g.g_clients in
+       events_string (o.o_events @ kicks) ^ " | " ^ cur_state ()
+    | ["delete"] ->
+       (match tdo TDelete with
+        | TDeleted r -> bs r ^ " | " ^ cur_state ()
+        | _ -> failwith "group: bad delete step")
     | _ -> failwith ("group: bad op " ^ String.concat " " toks)
 
 (* concurrent batches are checked by the driver's monitors only *)
